@@ -4,3 +4,4 @@ pub mod dynsampler;
 pub mod graphs;
 pub mod inst;
 pub mod tr;
+pub mod dd;
